@@ -121,6 +121,8 @@ func features() []feature {
 		{Name: "set-of-functions", Pre: "def sf1(x):\n    return x\ndef sf2(x):\n    return -x\nSOF = set([sf1, sf2])\n", Body: "    x_sof = SOF\n", Edits: []edit{{"change a function that is a set element", "return -x", "return x * 2"}}},
 		// a declared output: when it is missing AND the environment was edited, the reason still names the parts that differ
 		{Name: "generates-a-file", TArgs: ", generates=[\"gen.out\"]", Pre: "GEN_K = 1\n", Body: "    x_gen = GEN_K\n", Edits: []edit{{"change a global of a target with a declared output (which is deleted, too)", "GEN_K = 1", "GEN_K = 2"}}},
+		// a target of the same project that cannot be fingerprinted and shares a value with //:t
+		{Name: "sibling-that-cannot-be-fingerprinted", Pre: "SHARED = [1, [2]]\nZ_OPAQUE = opaque\ndef _bad(t):\n    x = (SHARED, print, Z_OPAQUE)\ntarget(name=\"bad\", function=_bad)\n", Body: "    x_sh = (SHARED, print)\n", Edits: []edit{{"change the value shared with the failing sibling", "[1, [2]]", "[1, [3]]"}}},
 		{Name: "struct-attr-chain", Pre: "def mk2():\n    return {\"f\": lambda v: v + 1}\nST = mk2()\n", Body: "    x_st = ST[\"f\"](1)\n", Edits: []edit{{"change lambda stored in a dict", "v + 1", "v + 2"}}},
 	}
 }
@@ -249,8 +251,18 @@ func (r *rec) TargetFailed(l *label.Label, err error) {
 }
 
 func builtins() starlark.StringDict {
-	return starlark.StringDict{"json": starlark_json.Module, "os": starlark_os.Module, "sh": starlark_sh.Module}
+	return starlark.StringDict{"json": starlark_json.Module, "os": starlark_os.Module, "sh": starlark_sh.Module, "opaque": opaqueValue{}}
 }
+
+// opaqueValue is a value an embedder predeclares and that cannot be pickled: a target that
+// refers to it legitimately cannot be fingerprinted.
+type opaqueValue struct{}
+
+func (opaqueValue) String() string        { return "<opaque>" }
+func (opaqueValue) Type() string          { return "opaque" }
+func (opaqueValue) Freeze()               {}
+func (opaqueValue) Truth() starlark.Bool  { return starlark.True }
+func (opaqueValue) Hash() (uint32, error) { return 1, nil }
 
 type loaded struct {
 	env   starlark.Value
@@ -264,6 +276,18 @@ func load(root string) (*loaded, error) {
 	proj, err := dawn.Load(root, &dawn.LoadOptions{Events: ev, Builtins: builtins()})
 	if err != nil {
 		return nil, fmt.Errorf("load: %w", err)
+	}
+	// a sibling target that cannot be fingerprinted is fingerprinted first (it fails, as it
+	// must): the failure must leave nothing behind for the fingerprints computed afterwards
+	if lb, _ := label.Parse("//:bad"); lb != nil {
+		if tb, err := proj.Target(lb); err == nil {
+			if fnb := dawn.VerifTargetFunction(tb); fnb != nil {
+				if _, err := dawn.VerifFunctionEnv(fnb); err == nil {
+					return nil, fmt.Errorf("load: BUILD.dawn: harness bug: //:bad can be fingerprinted")
+				}
+				proj.Run(lb, nil) // and through the build, too
+			}
+		}
 	}
 	l, _ := label.Parse("//:t")
 	t, err := proj.Target(l)
@@ -492,6 +516,23 @@ func main() {
 			viol("spurious-rebuild", fmt.Sprintf("rebuild of the unchanged tree re-executed: %v", l3.ev.rs), "")
 		}
 		r.Add("builds", 2)
+		if strings.Contains(p.Name, "sibling-that-cannot-be-fingerprinted") {
+			// in one process: the sibling's build fails on its fingerprint, then the unchanged //:t
+			// is built: it must be up to date, as it is without the sibling's failure
+			ev := &rec{Events: dawn.DiscardEvents, rs: map[string]string{}, df: map[string]diff.ValueDiff{}}
+			if proj, err := dawn.Load(root, &dawn.LoadOptions{Events: ev, Builtins: builtins()}); err == nil {
+				lbad, _ := label.Parse("//:bad")
+				lt, _ := label.Parse("//:t")
+				if proj.Run(lbad, nil) == nil {
+					vlib.Fatalf("//:bad built although it cannot be fingerprinted")
+				}
+				if err := proj.Run(lt, nil); err != nil {
+					viol("build-error:after-a-failed-fingerprint", "after a sibling target failed on its fingerprint, the build of the unchanged //:t fails: "+err.Error(), "")
+				} else if _, ran := ev.rs["//:t"]; ran {
+					viol("spurious-rebuild:after-a-failed-fingerprint", "after a sibling target failed on its fingerprint, the unchanged //:t was re-executed: "+ev.rs["//:t"], "")
+				}
+			}
+		}
 		// every single edit must change the fingerprint
 		for _, e := range p.Edits {
 			files := p.applyEdit(e)
